@@ -84,6 +84,10 @@ def build_world(ctx, rng, base, git):
         (sent / "shared-licence.txt").write_text("shared text outside the project\n")
         os.symlink(str(sent / "shared-licence.txt"), proj / "LICENSES" / "LicenseRef-two.txt")
     (proj / "notes.unknownext").write_text("notes\n")
+    # a Meson project that is a sub-directory of this one: its subprojects are nobody's covered files either
+    (proj / "client" / "subprojects" / "libfoo").mkdir(parents=True)
+    (proj / "client" / "meson.build").write_text("project('client')\n")
+    (proj / "client" / "subprojects" / "libfoo" / "foo.c").write_text("int foo;\n")
     ignored = set()
     if git:
         # "outer": the project is a subdirectory of a larger work tree, which is where .git and the ignore rules live
@@ -94,6 +98,13 @@ def build_world(ctx, rng, base, git):
         (proj / "build").mkdir()
         (proj / "build" / "out.py").write_text("o = 1\n")
         (proj / "docs2" / "also.ign").write_text("g\n")
+        # somebody else's repository cloned into the ignored build directory: one directory entry for Git, which never looks inside
+        dep = proj / "build" / "_deps" / "fmt-src"
+        dep.mkdir(parents=True)
+        trees.git(dep, "init", "-q")
+        (dep / "fmt.py").write_text("fmt = 1\n")
+        trees.git(dep, "add", ".", check=False)
+        trees.git(dep, "commit", "-q", "-m", "dep", check=False)
         # a name from an old archive: Latin-1 bytes, not UTF-8 - ignored all the same
         with open(os.fsencode(str(proj)) + b"/caf\xe9.ign", "wb") as fp:
             fp.write(b"g = 1\n")
@@ -120,7 +131,7 @@ def build_world(ctx, rng, base, git):
             r = trees.git(proj, "submodule", "add", "-q", str(src), "vendor/lib", check=False)
             if r.returncode == 0:
                 trees.git(proj, "commit", "-q", "-m", "add submodule", check=False)
-    covered = set(trees.spec_expect(recipe)["covered"]) | {"docs2/real.py", "readonly.py", "notes.unknownext", "docs2-legacy/old.py",
+    covered = set(trees.spec_expect(recipe)["covered"]) | {"docs2/real.py", "readonly.py", "notes.unknownext", "docs2-legacy/old.py", "client/meson.build",
                                                             "docs2-legacy/deep/older.py", "docs2.cfg"}
     if git and git != "outer":
         covered.add(".gitignore")
@@ -165,7 +176,7 @@ def pick_command(rng, proj, sent, recipe, covered, outdir):
         return gl, ["annotate"] + opts + [str(proj / f) for f in files], allowed, "annotate-named"
     if r < 0.84:
         dirs = rng.choice([["."], ["docs2"], [".", "docs2"], ["link_to_outside_dir"], ["src"] if (proj / "src").is_dir() else ["."],
-                           ["vendor"] if (proj / "vendor").is_dir() else ["."]])
+                           ["vendor"] if (proj / "vendor").is_dir() else ["."], ["client"], ["build"] if (proj / "build").is_dir() else ["client"]])
         opts = ["-c", "Jane", "-l", "MIT", "-r"] + rng.choice([["--fallback-dot-license"], ["--skip-unrecognised"], ["--force-dot-license"]])
         allowed = set()
         for d in dirs:
